@@ -30,7 +30,7 @@ COQ_EXTRA = ['Gen.C02HashSpec_ok']
 THEOREMS = [
     'C02_encode_injective', 'C02_encode_injective_gen', 'C02_lang_injective', 'C02_single_change',
     'C02_boundary_shift', 'C02_split_merge', 'C02_name_value_shift', 'C02_list_move',
-    'C02_driver_mode_table', 'C02_driver_mode_separates', 'C02_env_reaches_keys', 'C02_key_iff',
+    'C02_driver_mode_table', 'C02_driver_mode_separates', 'C02_env_reaches_keys', 'C02_arch_list_covered', 'C02_pp_arch_list_covered', 'C02_key_iff',
     'C02_pp_encode_injective', 'C02_pp_encode_injective_canon', 'C02_pp_time_salt_injective', 'C02_pp_single_change', 'C02_pp_boundary_shift', 'C02_pp_name_value_shift',
     'C02_pp_list_move', 'C02_pp_key_iff', 'C02_pp_env_covers_main', 'C02_required_vars_hashed',
     'C02_lang_pp_boundary_refuted', 'C02_extra_pp_boundary_refuted', 'C02_pp_lang_path_boundary_refuted',
@@ -146,6 +146,9 @@ def side_conditions(s):
     res.append(('side-condition:env_main subset of env_pp (S16)', not miss,
                 'in hash_key\'s CACHED_ENV_VARS but not in the preprocessor-level key\'s: %s' % miss if miss else ''))
     res.append(('side-condition:time_gate', bool(s['time_gate']), ''))
+    res.append(('side-condition:flow_c / flow_p (generate_hash_key hashes plain concatenations of the parsed argument lists, -arch order and multiplicity kept)',
+                s.get('flow_c') == ['SCommon', 'SArch', 'SProfile'] and s.get('flow_p') == ['SPre', 'SArch', 'SCommon', 'SProfile', 'SCwd'],
+                'hash_key <- %s; preprocessor_cache_entry_hash_key <- %s' % (s.get('flow_c'), s.get('flow_p'))))
     pf = s.get('env_prefilter')
     lost = [] if pf is None else [n.decode('latin-1') for n in s['allow_main'] + s['allow_pp'] if n not in pf]
     res.append(('side-condition:prefilter_ok (generate_hash_key passes every allow-listed variable on to the key functions)', not lost,
@@ -472,6 +475,14 @@ def mutants(r, level, adversarial=False):
         put('pp-append', 6, pp + b'\n')
         if len(pp) > 1:
             put('pp-trunc', 6, pp[:-1])
+        # line ends are bytes of the translation unit like any other (they are kept inside raw string literals)
+        if b'\r\n' in pp:
+            put('pp-crlf-to-lf', 6, pp.replace(b'\r\n', b'\n', 1))
+        elif b'\n' in pp:
+            put('pp-lf-to-crlf', 6, pp.replace(b'\n', b'\r\n', 1))
+        else:
+            put('pp-lf-vs-crlf', 6, pp + b'\r\n')
+            move('pp-lf-vs-crlf', _6=pp + b'\n')
         if args and (adversarial or not is_hex64((args[-1] + pp)[:64])):
             # (a 64-hex argument moved in front of the text is the recorded extra/pp ambiguity, finding C02-S10c)
             move('move-arg-pp', _3=args[:-1], _6=args[-1] + pp)
@@ -481,6 +492,13 @@ def mutants(r, level, adversarial=False):
         path, inp, ig = r[6], r[7], r[8]
         put('path-byte', 6, flip(path, len(path) - 1))
         put('path-append', 6, path + b'x')
+        # two names that differ only inside bytes that are not valid UTF-8 (legacy Latin-1 names)
+        cut = path.rindex(b'/')
+        put('path-nonutf8', 6, path[:cut] + b'/caf\xe9' + path[cut:])
+        put('path-nonutf8', 6, path[:cut] + b'/caf\xe8' + path[cut:])
+        hi = [i for i, c in enumerate(path) if c >= 0x80]
+        if hi:
+            put('path-nonutf8-byte', 6, path[:hi[-1]] + bytes([path[hi[-1]] ^ 1]) + path[hi[-1] + 1:])
         put('path-dir', 6, path[:path.rindex(b'/')] + b'/sub' + path[path.rindex(b'/'):])
         put('input-byte', 7, flip(inp, len(inp) // 2) if inp else b'x')
         put('input-append', 7, inp + b'\n')
@@ -704,15 +722,28 @@ def gen_flow(rng, tier):
                     steps.append([b'clang', b'clang', [b'"16.0.6"'], noise, files, pm])
                     labels.append(lab)
                 out.append([labels, steps])
+        # (D) the ORDERED list of hashed arguments: -arch pairs in both orders, repeated, single; other options around
+        archs = [[b'x86_64', b'arm64'], [b'arm64', b'x86_64'], [b'arm64', b'x86_64', b'arm64'], [b'x86_64', b'arm64', b'arm64'],
+                 [b'arm64'], [b'arm64', b'arm64'], [b'x86_64'], []]
+        for kind in (b'clang', rng.choice([b'gcc', b'clang++', b'g++', b'apple-clang'])):
+            for pm in (0, 1):
+                steps, labels = [], []
+                other = rng.choice([[], [b'-O2'], [b'-fPIC', b'-O2']])
+                for al in archs:
+                    extra = list(other[:1]) + sum(([b'-arch', a] for a in al), []) + list(other[1:])
+                    steps.append([kind, kind, [b'"16.0.6"'], noise, [], pm, extra])
+                    labels.append(b'arch-' + b'-'.join(al) if al else b'arch-none')
+                out.append([labels, steps])
     return out
 
 
 def flow_views(st):
-    exe, kind, ver, env, files, pm = st
+    exe, kind, ver, env, files, pm = st[:6]
+    extra_args = tuple(st[6]) if len(st) > 6 else ()
     am, ap = allow_list('allow_main'), allow_list('allow_pp')
     base = (kind.endswith(b'++'), tuple(ver), tuple(f[1] for f in files), tuple(f[0] for f in files))
-    return (base + (tuple(sorted((k, v) for k, v in env if k in am)),),
-            base + (tuple(sorted((k, v) for k, v in env if k in ap)),))
+    return (base + (tuple(sorted((k, v) for k, v in env if k in am)), extra_args),
+            base + (tuple(sorted((k, v) for k, v in env if k in ap)), extra_args))
 
 
 def monitor_flow(case, out):
@@ -724,7 +755,8 @@ def monitor_flow(case, out):
         if not (isinstance(o, list) and len(o) == 2):
             vs.append('step %d (%s): no key (%r)' % (i, labels[i].decode(), o))
     views = [flow_views(st) for st in steps]
-    names = ('C++ driver', 'reported version', 'contents of the extra hashed files', 'extra file names', 'allow-listed environment')
+    names = ('C++ driver', 'reported version', 'contents of the extra hashed files', 'extra file names', 'allow-listed environment',
+             'ordered list of hashed arguments')
     for i in range(len(steps)):
         for j in range(i + 1, len(steps)):
             if not (isinstance(out[i], list) and isinstance(out[j], list) and len(out[i]) == 2 and len(out[j]) == 2):
@@ -732,7 +764,7 @@ def monitor_flow(case, out):
             for which, what in ((0, 'result key'), (1, 'preprocessor-cache key')):
                 ki, kj = out[i][which], out[j][which]
                 if ki == b'none' or kj == b'none':
-                    if which == 1 and (ki == b'none') != (not steps[i][5]):
+                    if which == 1 and i + 1 == j and (ki == b'none') != (not steps[i][5]):
                         vs.append('step %d: preprocessor-cache mode %d but manifest key %r' % (i, steps[i][5], ki))
                     continue
                 a, b = views[i][which], views[j][which]
